@@ -254,26 +254,26 @@ theorem reach_d2 : Reach noRun d2 :=
 
 theorem reach_d3 : Reach noRun d3 :=
   reach_d2.new .unsafe_ [] [] [] (by decide +kernel) (by decide +kernel) (by decide +kernel)
-    (by decide +kernel) (by decide +kernel) (by decide +kernel) (by decide +kernel)
+    (by decide +kernel) (by decide +kernel) (by decide +kernel) (by decide +kernel) (by decide +kernel)
 
 theorem reach_d4 : Reach noRun d4 :=
   reach_d3.new .unsafe_ [] [] [] (by decide +kernel) (by decide +kernel) (by decide +kernel)
-    (by decide +kernel) (by decide +kernel) (by decide +kernel) (by decide +kernel)
+    (by decide +kernel) (by decide +kernel) (by decide +kernel) (by decide +kernel) (by decide +kernel)
 
 theorem reach_d5 : Reach noRun d5 :=
   reach_d4.new .typed [0, 1] [(1, 7)] [⟨0, p1⟩] (by decide +kernel) (by decide +kernel)
     (by decide +kernel) (by decide +kernel) (by decide +kernel) (by decide +kernel)
-    (by decide +kernel)
+    (by decide +kernel) (by decide +kernel)
 
 theorem reach_d6 : Reach noRun d6 :=
   reach_d5.new .typed [0, 1] [(1, 8)] [⟨0, p1⟩] (by decide +kernel) (by decide +kernel)
     (by decide +kernel) (by decide +kernel) (by decide +kernel) (by decide +kernel)
-    (by decide +kernel)
+    (by decide +kernel) (by decide +kernel)
 
 theorem reach_d7 : Reach noRun d7 :=
   reach_d6.new .typed [0, 1] [(1, 9)] [⟨0, p2⟩] (by decide +kernel) (by decide +kernel)
     (by decide +kernel) (by decide +kernel) (by decide +kernel) (by decide +kernel)
-    (by decide +kernel)
+    (by decide +kernel) (by decide +kernel)
 
 /-- … the removal of the relation target `p1` (with `cleanupArchetypes`) … -/
 theorem reach_d8 : Reach noRun d8 :=
@@ -283,24 +283,24 @@ theorem reach_d8 : Reach noRun d8 :=
 /-- … a new parent re-using the ID of `p1`, and a child of it in the recycled table -/
 theorem reach_d9 : Reach noRun d9 :=
   reach_d8.new .unsafe_ [] [] [] (by decide +kernel) (by decide +kernel) (by decide +kernel)
-    (by decide +kernel) (by decide +kernel) (by decide +kernel) (by decide +kernel)
+    (by decide +kernel) (by decide +kernel) (by decide +kernel) (by decide +kernel) (by decide +kernel)
 
 theorem reach_d10 : Reach noRun d10 :=
   reach_d9.new .typed [0, 1] [(1, 5)] [⟨0, p3⟩] (by decide +kernel) (by decide +kernel)
     (by decide +kernel) (by decide +kernel) (by decide +kernel) (by decide +kernel)
-    (by decide +kernel)
+    (by decide +kernel) (by decide +kernel)
 
 /-- `SetRelations` and `Add` with a relation (the worlds `d7s`, `d7a` of `Ark.Props.C04World`),
     and a query as a step of the history -/
 theorem reach_d7s : Reach noRun d7s :=
   reach_d7.setRel .typed ⟨6, 0⟩ [0] [⟨0, p1⟩] (by decide +kernel) (by decide +kernel)
     (by decide +kernel) (by decide +kernel) (by decide +kernel) (by decide +kernel)
-    (by decide +kernel) (by decide +kernel) (by decide +kernel)
+    (by decide +kernel) (by decide +kernel) (by decide +kernel) (by decide +kernel)
 
 theorem reach_d7a : Reach noRun d7a :=
   reach_d7.add .typed p2 [0] [] [⟨0, p1⟩] (by decide +kernel) (by decide +kernel)
     (by decide +kernel) (by decide +kernel) (by decide +kernel) (by decide +kernel)
-    (by decide +kernel) (by decide +kernel) (by decide +kernel) (by decide +kernel)
+    (by decide +kernel) (by decide +kernel) (by decide +kernel) (by decide +kernel) (by decide +kernel)
 
 theorem qgood_d7 : QGood d7 := (QueryRel.reach_qgood noRun reach_d7).1
 theorem qgood_d10 : QGood d10 := (QueryRel.reach_qgood noRun reach_d10).1
